@@ -504,6 +504,21 @@ def check_property(prop, tier, seed):
         json.dump({'property': prop, 'obligation': name, 'status': 'error', 'reason': r['error'],
                    'note': 'the function left the verifiable subset or a contract stopped binding; no solver model exists'}, open(rp, 'w'), indent=1)
         violations.append((name, rp, True))
+    # lemmas marked `bounded` are not proved: they are checked exhaustively for every shape in their box on every
+    # run, reported separately, and listed among the assumptions
+    bounded_report = []
+    for lem in ses.bounded_lemmas(prop):
+        br = ses.check_bounded_lemma(lem, timeout, widen=(1 if tier == 'thorough' else 0))
+        bounded_report.append({'lemma': lem.name, 'level': 'bounded', 'box': br['box'], 'widened_by': (1 if tier == 'thorough' else 0), 'shapes': br['shapes'], 'queries': br['queries'],
+                               'failures': len(br['failures']), 'wall_s': br['wall_s']})
+        notes.add('lemma %s is only checked for the shapes in its box %s (bounded, not proved); the functions that `use` it rely on it for all sizes'
+                  % (lem.name, ' '.join('%s=%d..%d' % (k_, v_[0], v_[1]) for k_, v_ in sorted(br['box'].items()))))
+        for fl in br['failures'][:3]:
+            os.makedirs(replay_dir, exist_ok=True)
+            name = 'lemma.%s[bounded]' % lem.name
+            rp = os.path.join(replay_dir, re.sub(r'[^A-Za-z0-9_.#@-]', '_', name) + '.json')
+            json.dump({'property': prop, 'obligation': name, 'status': fl['status'], 'shape': fl['shape'], 'solver_output': fl['output']}, open(rp, 'w'), indent=1, default=str)
+            violations.append((name, rp, True))
     for vp in vac_problems:
         os.makedirs(replay_dir, exist_ok=True)
         name = 'vacuity/' + vp.split(':')[0]
@@ -525,6 +540,7 @@ def check_property(prop, tier, seed):
                            for g in gens if not g.get('error') for ob in g['obs'] if ob.kind != 'canary'], key=lambda x: -x['time_s'])[:8],
         'vacuity': {'canaries': sum(1 for g in gens if not g.get('error') for ob in g['obs'] if ob.kind == 'canary'), 'problems': vac_problems},
         'timeout_s': timeout,
+        'bounded': bounded_report,
         'errors': [{'function': short_fn(r['func']), 'error': r['error']} for r in results],
     }
     assumptions = sorted(notes) + ['termination only where a decreases clause is given', 'goroutines, channels, OS interaction are outside the verified subset',
